@@ -18,11 +18,11 @@ def props():
 def main():
     ap = argparse.ArgumentParser()
     ap.add_argument("cmd"); ap.add_argument("prop"); ap.add_argument("m", nargs="?")
-    ap.add_argument("--needs", default=""); ap.add_argument("--checks", default=""); ap.add_argument("--src", default="")
+    ap.add_argument("--needs", default=""); ap.add_argument("--checks", default=""); ap.add_argument("--src", default=""); ap.add_argument("--no-checks", action="store_true")
     a = ap.parse_args()
     if a.cmd == "ingest":
         sid = "%s-%s" % (a.prop, a.m)
-        src = a.src or "/tmp/seeds/%s-%s/%s" % ({"m3": "out2", "m4": "out2", "m5": "out3", "m6": "out3", "m7": "out4", "m8": "out4"}.get(a.m, "out"), a.prop, a.m)
+        src = a.src or "/tmp/seeds/%s-%s/%s" % ({"m3": "out2", "m4": "out2", "m5": "out3", "m6": "out3", "m7": "out4", "m8": "out4", "m9": "out5", "m10": "out5"}.get(a.m, "out"), a.prop, a.m)
         dst = os.path.join(V, "seeded", sid)
         os.makedirs(dst, exist_ok=True)
         for f in os.listdir(src):
@@ -38,6 +38,8 @@ def main():
         json.dump(meta, open(os.path.join(dst, "meta.json"), "w"), indent=1)
         if not confirmed.startswith("CONFIRMED"):
             return 2
+        if a.no_checks:
+            return 0
     else:
         sid = a.prop if a.m is None else "%s-%s" % (a.prop, a.m)
         dst = os.path.join(V, "seeded", sid)
